@@ -117,7 +117,9 @@ int main(int argc, char** argv) {
                 line += (line.empty() ? "" : " ") + TextIO::moveToUCIString(m);
             }
             gos << line << "\n";
-            fos << TextIO::toFEN(pos) << "\n";
+            // the position as FEN: with the en-passant square only if the capture is really possible (Position::makeMove also sets it when
+            // the capturing pawn is pinned - known finding C02 pseudo-ep; the tool rejects such a FEN as "lossy", which is about the text)
+            { Position f(pos); TextIO::fixupEPSquare(f); fos << TextIO::toFEN(f) << "\n"; }
         }
         return 0;
     }
